@@ -66,9 +66,9 @@ const batch = 2000
 
 func plan(seed int64, tier string) []vrt.Case {
 	var cs []vrt.Case
-	ab, sab, pab, psab, nLong, timeout := 16, 10, 8, 6, 150, 240
+	ab, sab, pab, psab, nLong, nRebuild, timeout := 16, 10, 8, 6, 150, 320, 240
 	if tier == "thorough" {
-		ab, sab, pab, psab, nLong, timeout = 20, 12, 10, 8, 5800, 600
+		ab, sab, pab, psab, nLong, nRebuild, timeout = 20, 12, 10, 8, 5800, 8000, 600
 	}
 	add := func(id string, p params) {
 		p.Seed = seed
@@ -80,6 +80,9 @@ func plan(seed int64, tier string) []vrt.Case {
 	// long inputs first: they are the slowest cases
 	for _, ch := range lzwork.LongChunks(nLong) {
 		add(fmt.Sprintf("long-%d-%d", ch[0], ch[1]), params{Kind: "long", Lo: ch[0], Hi: ch[1], N: nLong})
+	}
+	for lo := 0; lo < nRebuild; lo += 10 {
+		add(fmt.Sprintf("rebuild-%d", lo), params{Kind: "rebuild", Lo: lo, Hi: min(lo+10, nRebuild), N: nRebuild})
 	}
 	for _, r := range lzwork.ShortRanges("ab", ab, batch, "") {
 		add(rangeID("short", r), params{Kind: "short", Range: &r})
@@ -438,6 +441,41 @@ func (c *ctx) runLong(p params) {
 		"read_plans":       "1-byte reads (up to 70 kB) + two rotating of fixed 1,2,3,7,59,60,61,4096 / prng / prng-small; rotating source readers"}
 }
 
+// runRebuild: volume over the moment the adaptive tree is rebuilt (see lzwork.RebuildSpecs): one
+// compression and one round trip per input, header modes alternating.
+func (c *ctx) runRebuild(p params) {
+	specs := lzwork.RebuildSpecs(p.Seed, p.N)
+	var names []string
+	for i := p.Lo; i < p.Hi && i < len(specs); i++ {
+		sp := specs[i]
+		in := sp.Bytes()
+		what := sp.String()
+		names = append(names, what)
+		crc := i%2 == 0
+		c.o.Evals++
+		c.o.Count("inputs_rebuild_family", 1)
+		c.o.Count("input_bytes", int64(len(in)))
+		whole, ok := c.compress(what, in, crc, nil, "whole")
+		if !ok {
+			continue
+		}
+		raw := whole
+		if crc {
+			raw = whole[2:]
+		}
+		if _, _, st, err := lzref.DecodeStats(raw); err == nil {
+			c.o.Count("adaptive_tree_rebuilds", int64(st.Rebuilds))
+			if st.Rebuilds > 0 {
+				c.o.Count("inputs_with_tree_rebuild", 1)
+			}
+		}
+		c.o.Evals++
+		c.roundTrip(what, in, whole, crc, lzwork.Sources[i%len(lzwork.Sources)], lzwork.ReadPlan{Kind: "fixed", K: 4096})
+		c.o.Sig("%s|%d|%x", modeName(crc), len(in), hashOf(in))
+	}
+	c.o.Sample = map[string]any{"kind": "rebuild", "inputs": names}
+}
+
 func run(cs vrt.Case) vrt.Obs {
 	var p params
 	vrt.Params(cs, &p)
@@ -450,6 +488,8 @@ func run(cs vrt.Case) vrt.Obs {
 		c.runParts(*p.Range, p.Tail)
 	case "long":
 		c.runLong(p)
+	case "rebuild":
+		c.runRebuild(p)
 	default:
 		panic("c06: unknown case kind " + p.Kind)
 	}
